@@ -70,6 +70,11 @@ func namedDag(name string) ([]dag.Ev, int) {
 		return buildPlays(4, []string{"w00", "w01", "w02", "w03"}, funkyPlays(0)), 4
 	case "coinround":
 		return namedCoin(-1)
+	case "outoforder":
+		return namedDev(outOfOrderPlays, -1)
+	}
+	if strings.HasPrefix(name, "outoforder~") {
+		return namedDev(outOfOrderPlays, atoi(strings.TrimPrefix(name, "outoforder~")))
 	}
 	if strings.HasPrefix(name, "coinround~") {
 		return namedCoin(atoi(strings.TrimPrefix(name, "coinround~")))
@@ -122,8 +127,11 @@ func namedDag(name string) ([]dag.Ev, int) {
 // dev takes as other-parent the previous event of the same other creator instead (a slightly older view),
 // all later events are re-signed on top. dev beyond the list or an event without such an alternative
 // yields nil.
-func namedCoin(dev int) ([]dag.Ev, int) {
-	plays := append([]playT{}, coinRoundPlays...)
+func namedCoin(dev int) ([]dag.Ev, int) { return namedDev(coinRoundPlays, dev) }
+
+// namedDev: the same single-event deviation for any list of plays.
+func namedDev(base []playT, dev int) ([]dag.Ev, int) {
+	plays := append([]playT{}, base...)
 	if dev >= 0 {
 		if dev >= len(plays) || plays[dev].other == "" {
 			return nil, 0
